@@ -15,8 +15,12 @@ import (
 	"crypto/sha256"
 	"encoding/json"
 	"fmt"
+	"go/ast"
+	"go/parser"
+	"go/token"
 	"path/filepath"
 	"sort"
+	"strconv"
 	"strings"
 
 	"github.com/ontio/ontology/account"
@@ -42,8 +46,9 @@ type Step struct {
 
 type History struct {
 	Kind  string `json:"kind"`
-	NTx   []int  `json:"ntx"`   // transactions of source block i+1
-	Steps []Step `json:"steps"` // applied to the second ledger
+	NTx   []int  `json:"ntx"`             // transactions of source block i+1
+	Steps []Step `json:"steps"`           // applied to the second ledger
+	Marks []int  `json:"marks,omitempty"` // transaction positions probed by hash in big blocks
 }
 
 // ---------- ids and digests ----------
@@ -88,12 +93,58 @@ func coqTxPair(t *types.Transaction) string {
 	return fmt.Sprintf("(%d,%d)", id64(t.Hash()), digest(txBytes(t)))
 }
 
+// bigBlock: blocks with more transactions than this are written with a generated transaction list
+// (their hashes and digests were registered as consecutive ids when the block was built).
+const bigBlock = 16
+
 func coqBlock(b *types.Block) string {
+	n := len(b.Transactions)
+	if n > bigBlock {
+		hb, db := id64(b.Transactions[0].Hash()), digest(txBytes(b.Transactions[0]))
+		ok := true
+		for i, t := range b.Transactions {
+			if id64(t.Hash()) != hb+uint64(i) || digest(txBytes(t)) != db+uint64(i) {
+				ok = false
+				break
+			}
+		}
+		if ok {
+			return fmt.Sprintf("(BG %d %d %d %d %d %d)", id64(b.Hash()), b.Header.Height, digest(headerBytes(b.Header)), hb, db, n)
+		}
+	}
 	var txs []string
 	for _, t := range b.Transactions {
 		txs = append(txs, coqTxPair(t))
 	}
 	return fmt.Sprintf("(B %d %d %d %s)", id64(b.Hash()), b.Header.Height, digest(headerBytes(b.Header)), hx.CoqList(txs))
+}
+
+// registerBig gives the transactions of a big block consecutive ids (hashes, then digests).
+func registerBig(b *types.Block) {
+	if len(b.Transactions) <= bigBlock {
+		return
+	}
+	for _, t := range b.Transactions {
+		id64(t.Hash())
+	}
+	for _, t := range b.Transactions {
+		digest(txBytes(t))
+	}
+}
+
+// coqRanges writes a set of ids as inclusive ranges.
+func coqRanges(v []uint64) string {
+	sort.Slice(v, func(i, j int) bool { return v[i] < v[j] })
+	var out []string
+	for i := 0; i < len(v); {
+		j := i
+		for j+1 < len(v) && v[j+1] <= v[j]+1 {
+			j++
+		}
+		out = append(out, fmt.Sprintf("(%d,%d)", v[i], v[j]))
+		i = j + 1
+	}
+	return hx.CoqList(out)
 }
 
 func coqOptHash(h common.Uint256, ok bool) string {
@@ -115,6 +166,8 @@ type runner struct {
 	segs   []string
 	c0     string
 	nq     int
+	recBig map[int]bool // bigtx histories: the big blocks whose by-height/by-hash answers go into the Coq case
+	marks  []int        // transaction positions probed in big blocks (boundaries read from the source)
 }
 
 func (r *runner) store() *ledgerstore.LedgerStoreImp { return r.k.Store() }
@@ -167,6 +220,9 @@ func (r *runner) heights(all bool) []uint32 {
 	add(top + 1000)
 	var out []uint32
 	for h := range set {
+		if int(h) < len(r.src) && len(r.src[h].Transactions) > bigBlock && !r.recBig[int(h)] {
+			continue // big blocks outside the recorded set: oracle only
+		}
 		out = append(out, h)
 	}
 	sort.Slice(out, func(i, j int) bool { return out[i] < out[j] })
@@ -179,7 +235,8 @@ func (r *runner) checkpoint(all bool) string {
 	st := r.store()
 	bs := st.VerifBlockStore()
 	var qs []string
-	var cb, ct []string
+	var cb []string
+	var ct []uint64
 	seenK := map[common.Uint256]bool{}
 	curH, curHash := st.VerifCurrent()
 	if int(curH) != r.cur {
@@ -238,10 +295,21 @@ func (r *runner) checkpoint(all bool) string {
 			hdrTerm = "(Some " + coqHeader(hd) + ")"
 		}
 		qs = append(qs, fmt.Sprintf("QK %d %s %s %s", id64(k), blkTerm, hdrTerm, hx.CoqBool(st.VerifHeaderCached(k))))
-		for _, t := range b.Transactions {
+		probe := map[int]bool{}
+		if n := len(b.Transactions); n > bigBlock {
+			for _, m := range append([]int{0, n - 1}, r.marks...) {
+				if m >= 0 && m < n {
+					probe[m] = true
+				}
+			}
+		}
+		for i, t := range b.Transactions {
 			th := t.Hash()
 			if st.VerifTxCached(th) {
-				ct = append(ct, fmt.Sprint(id64(th)))
+				ct = append(ct, id64(th))
+			}
+			if len(b.Transactions) > bigBlock && !probe[i] {
+				continue
 			}
 			term := "None"
 			if gt, gh, err := st.GetTransaction(th); err == nil && gt != nil {
@@ -276,7 +344,7 @@ func (r *runner) checkpoint(all bool) string {
 	}
 	r.c.Count(fmt.Sprintf("window:first>0=%v", first > 0))
 	return fmt.Sprintf("(CK (%d, %d) %s (%d, %d, %d) %s %s %s)", curH, id64(curHash), dcur, first, last, size,
-		hx.CoqList(cb), hx.CoqList(ct), "[\n   "+strings.Join(qs, ";\n   ")+"]")
+		hx.CoqList(cb), coqRanges(ct), "[\n   "+strings.Join(qs, ";\n   ")+"]")
 }
 
 // oracle: the five queries at a committed height against the block that was committed there.
@@ -294,7 +362,7 @@ func (r *runner) oracle(h uint32, got common.Uint256, blk *types.Block, err erro
 			map[string]interface{}{"height": h, "err": fmt.Sprint(err), "nil": blk == nil}, "the committed block")
 	} else if !bytes.Equal(blk.ToArray(), wantBytes) {
 		r.fail("query:block-by-height", "GetBlockByHeight(height) returns a different block",
-			map[string]interface{}{"height": h, "block": hx.Hex(blk.ToArray())}, hx.Hex(wantBytes))
+			map[string]interface{}{"height": h, "block": describe(blk)}, describe(want))
 	}
 	bh, err := st.GetBlockByHash(wh)
 	if err != nil || bh == nil {
@@ -302,7 +370,7 @@ func (r *runner) oracle(h uint32, got common.Uint256, blk *types.Block, err erro
 			map[string]interface{}{"height": h, "err": fmt.Sprint(err)}, "the committed block")
 	} else if !bytes.Equal(bh.ToArray(), wantBytes) {
 		r.fail("query:block-by-hash", "GetBlockByHash(hash) returns a different block",
-			map[string]interface{}{"height": h, "block": hx.Hex(bh.ToArray())}, hx.Hex(wantBytes))
+			map[string]interface{}{"height": h, "block": describe(bh)}, describe(want))
 	}
 	hd, err := st.GetHeaderByHash(wh)
 	if err != nil || hd == nil {
@@ -323,6 +391,19 @@ func (r *runner) oracle(h uint32, got common.Uint256, blk *types.Block, err erro
 				map[string]interface{}{"height": gh, "tx": hx.Hex(txBytes(gt))}, map[string]interface{}{"height": h, "tx": hx.Hex(txBytes(t))})
 		}
 	}
+}
+
+// describe: what a failure record says about a block (full bytes only when small).
+func describe(b *types.Block) map[string]interface{} {
+	d := map[string]interface{}{"hash": b.Hash().ToHexString(), "height": b.Header.Height, "transactions": len(b.Transactions)}
+	if n := len(b.Transactions); n > 0 {
+		lh := b.Transactions[n-1].Hash()
+		d["last_tx"] = lh.ToHexString()
+	}
+	if raw := b.ToArray(); len(raw) <= 4096 {
+		d["bytes"] = hx.Hex(raw)
+	}
+	return d
 }
 
 func statusOf(err error, changed bool) string {
@@ -468,6 +549,7 @@ func runHistory(c *hx.Ctx, hist History, tag string) {
 			}
 			b, err := ka.AddBlock(txs)
 			ledgerkit.Must(err)
+			registerBig(b)
 			src = append(src, b)
 		}
 	})
@@ -476,7 +558,14 @@ func runHistory(c *hx.Ctx, hist History, tag string) {
 		return
 	}
 	// ---- replay on the second ledger ----
-	r := &runner{c: c, hist: hist, src: src}
+	r := &runner{c: c, hist: hist, src: src, recBig: map[int]bool{}, marks: hist.Marks}
+	// record (in the Coq case) the last four big blocks; the oracle visits all of them
+	for h, k := len(src)-1, 0; h >= 1 && k < 4; h-- {
+		if len(src[h].Transactions) > bigBlock {
+			r.recBig[h] = true
+			k++
+		}
+	}
 	panicked, msg = hx.Recover(func() {
 		kb, err := ledgerkit.NewWithAccount(dirB, acct)
 		ledgerkit.Must(err)
@@ -622,6 +711,85 @@ func genLong(c *hx.Ctx, n int, headerFirst bool) History {
 	return h
 }
 
+// sourceLiterals: integer literals between 32 and 4200 in the block/ledger store sources (cache
+// sizes, window sizes, allocation limits...). A limit introduced by a change shows up here and gets
+// blocks with one transaction fewer, exactly as many, and one more.
+func sourceLiterals(repo string) []int {
+	seen := map[int]bool{}
+	for _, f := range []string{"block_store.go", "ledger_store.go", "block_cache.go", "header_Index_cache.go"} {
+		fset := token.NewFileSet()
+		af, err := parser.ParseFile(fset, filepath.Join(repo, "core/store/ledgerstore", f), nil, 0)
+		if err != nil {
+			continue
+		}
+		ast.Inspect(af, func(n ast.Node) bool {
+			if b, ok := n.(*ast.BasicLit); ok && b.Kind == token.INT {
+				if v, err := strconv.ParseInt(b.Value, 0, 64); err == nil && v >= 32 && v <= 4200 {
+					seen[int(v)] = true
+				}
+			}
+			return true
+		})
+	}
+	var out []int
+	for v := range seen {
+		out = append(out, v)
+	}
+	sort.Ints(out)
+	return out
+}
+
+// genBigTx: blocks with very many transactions (around every size literal of the store sources, and
+// 1023/1024/1025/2100), read back while they are in the block cache, after more than BLOCK_CAHE_SIZE
+// further blocks pushed them out of it, and after a restart.
+func genBigTx(c *hx.Ctx) History {
+	h := History{Kind: "bigtx"}
+	lits := sourceLiterals(c.Repo)
+	sizes := map[int]bool{}
+	var order []int
+	add := func(n int) {
+		if n > bigBlock && !sizes[n] {
+			sizes[n] = true
+			order = append(order, n)
+		}
+	}
+	for _, v := range lits {
+		add(v - 1)
+		add(v)
+		add(v + 1)
+		h.Marks = append(h.Marks, v-1, v)
+	}
+	for _, n := range []int{1023, 1024, 1025, 2100} {
+		if sizes[n] { // keep these four last (they are the ones recorded in the Coq case)
+			for i, x := range order {
+				if x == n {
+					order = append(order[:i], order[i+1:]...)
+					break
+				}
+			}
+			sizes[n] = false
+		}
+		add(n)
+	}
+	h.Marks = append(h.Marks, 1023, 1024)
+	h.NTx = append(h.NTx, 1) // a small block first
+	h.NTx = append(h.NTx, order...)
+	nbig := len(h.NTx)
+	evict := int(ledgerstore.BLOCK_CAHE_SIZE) + 2
+	for i := 0; i < evict; i++ {
+		h.NTx = append(h.NTx, c.Intn(2))
+	}
+	for i := 0; i < nbig; i++ {
+		h.Steps = append(h.Steps, Step{Op: "commit"})
+	}
+	h.Steps = append(h.Steps, Step{Op: "check", All: true})
+	for i := 0; i < evict; i++ {
+		h.Steps = append(h.Steps, Step{Op: "commit"})
+	}
+	h.Steps = append(h.Steps, Step{Op: "check", All: true}, Step{Op: "reopen"}, Step{Op: "check", All: true})
+	return h
+}
+
 func Run(c *hx.Ctx) {
 	c.CoqModule("Corr.C40")
 	var in History
@@ -640,6 +808,7 @@ func Run(c *hx.Ctx) {
 		n := 2 + c.Intn(c.N(10, 24))
 		runHistory(c, genSmall(c, n, 4), fmt.Sprintf("small%d", i))
 	}
+	runHistory(c, genBigTx(c), "bigtx0")
 	win := int(ledgerstore.HEADER_INDEX_MAX_SIZE)
 	if c.Quick() {
 		runHistory(c, genLong(c, win+40+c.Intn(30), c.Seed%2 == 0), "long0")
